@@ -22,10 +22,10 @@ THEOREMS = []  # filled below once Props/C04.lean exists (kept in one place: THE
 THEOREM_NAMES = """
 inv_init abs_init inv_put abs_put no_null_deref inv_remove abs_remove inv_rehash inv_clear abs_clear inv_clone abs_clone inv_merge abs_merge
 step_refines inv_reachable abs_run length_eq_card length_reachable rawget_spec get_spec get_depth_cutoff proto_irrelevant
-next_visits_each_key_once rehash_has_room capacity_pow2_init capacity_pow2_step merge_eq_puts
+next_visits_each_key_once rehash_has_room capacity_pow2_init capacity_pow2_step merge_eq_puts proto_step merge_proto_none merge_new_spec fromPuts_proto_none
 arr_count_le_capacity buf_count_le_capacity no_overflow abs_new abs_push abs_cfun_push abs_pop abs_setcount abs_insert abs_remove_seq
 abs_slice abs_fill abs_concat abs_put_seq abs_putindex abs_trim buf_extra_guard abs_buf_push abs_buf_setcount abs_buf_popn abs_buf_fill
-abs_buf_blit abs_buf_blit_self astep_abs arr_inv_reachable
+abs_buf_blit abs_buf_blit_self astep_abs arr_inv_reachable aensure_never_exits flatten_terminates
 no_oob_in no_oob_get no_oob_halfrange no_oob_slice aremove_no_ub aremove_overflow_ub putindex_fills_gap putindex_gap_uninit
 """.split()
 ENV = dict(os.environ, ASAN_OPTIONS="detect_leaks=0:abort_on_error=0:allocator_may_return_null=1", UBSAN_OPTIONS="print_stacktrace=1")
@@ -107,8 +107,36 @@ class Gen:
         for _ in range(nops):
             t = main if r.chance(3, 4) else T()
             x = r.below(1000)
-            if x < 430:
+            if x < 360:
                 ops.append("put %s %s %s" % (t, K(), self.val(18)))
+            elif x < 385:
+                # boot.janet `merge`: a NEW table; then look at its prototype and at keys that may live only in prototypes
+                d = T()
+                srcs = [r.choice([T(), T(), S()]) for _ in range(r.range(0, 3))]
+                ops.append("mergenew %s %s" % (d, " ".join(srcs)))
+                newobj(d)
+                ops.append("getproto %s" % d)
+                for _ in range(r.range(1, 3)):
+                    ops.append("%s %s %s" % (r.choice(["get", "in", "rawget"]), d, K()))
+            elif x < 395:
+                d = T()
+                ks = [K() if r.chance(9, 10) else r.choice(["nil", "nan"]) for _ in range(r.range(0, 8))]
+                vs = [self.val(10) for _ in range(r.range(0, 8))]
+                ops.append("zipcoll %s %s / %s" % (d, " ".join(ks), " ".join(vs)))
+                newobj(d)
+                ops.append("getproto %s" % d)
+            elif x < 405:
+                d = T()
+                kv = []
+                for _ in range(r.range(0, 8)):
+                    kv += [K() if r.chance(9, 10) else r.choice(["nil", "nan"]), self.val(10)]
+                ops.append("frompairs %s %s" % (d, " ".join(kv)))
+                newobj(d)
+                ops.append("getproto %s" % d)
+            elif x < 418:
+                ops.append("update %s %s" % (t, K()))
+            elif x < 430:
+                ops.append("getproto %s" % r.choice([t, S()]))
             elif x < 480:
                 ops.append("rem %s %s" % (t, K()))
             elif x < 560:
@@ -135,14 +163,14 @@ class Gen:
                 newobj(d)
                 if src in proto:
                     proto[ident[d]] = proto[src]
-            elif x < 840:
-                p = T() if r.chance(4, 5) else "nil"
+            elif x < 850:
+                p = T() if r.chance(5, 6) else "nil"
                 ops.append("setproto %s %s" % (t, p))
                 if p == "nil":
                     proto.pop(ident[t], None)
                 else:
                     proto[ident[t]] = ident[p]
-            elif x < 860:
+            elif x < 865:
                 srcs = [r.choice([T(), S()]) for _ in range(r.range(1, 2))]
                 ops.append("%s %s %s" % (r.choice(["merge", "cmerge"]), t, " ".join(srcs)))
             elif x < 880:
@@ -155,7 +183,7 @@ class Gen:
                 ops.append("tnew %s %d" % (t, r.choice([0, 0, 1, 2, 3, 4, 7, 8, 9, 16, 31, 33, 100, 600])))
                 newobj(t)
             elif x < 915:
-                if not cyclic(t):
+                if not cyclic(t) or r.chance(1, 3):      # a cyclic chain must be cut off like `get` does, not loop for ever
                     d = T()
                     ops.append("flatten %s %s" % (t, d))
                     newobj(d)
@@ -266,7 +294,7 @@ class Gen:
             elif x < 670:
                 ops.append("afill A%d %s" % (a, self.val(20)) if r.chance(3, 4) else "afill A%d" % a)
             elif x < 700:
-                ops.append("aensure A%d %s %s" % (a, r.choice([str(r.range(-2, 80)), str(r.range(-2, n + 5)), "nil", "f1.5", "2147483648"]), r.choice(["1", "2", "3", "nil", "f0.5", str(r.range(1, 4))])))
+                ops.append("aensure A%d %s %s" % (a, r.choice([str(r.range(-2, 80)), str(r.range(-2, n + 5)), "nil", "f1.5", "2147483648"]), r.choice(["1", "2", "3", "nil", "f0.5", str(r.range(1, 4)), "2", "1", "0", "-1"])))
             elif x < 720:
                 ops.append("atrim A%d" % a)
             elif x < 730:
@@ -615,6 +643,38 @@ class Oracle:
                 for s in t[2:]:
                     o.d.update(dict(self.obj(s).d))
                 exp = "ok"
+            elif name == "mergenew":
+                d = {}
+                for sname in t[2:]:
+                    d.update(dict(self.obj(sname).d))
+                self.T[int(x[1:])] = Obj(d, None)      # a constructor: the result has NO prototype
+                exp = "ok"
+            elif name in ("zipcoll", "frompairs"):
+                if name == "zipcoll":
+                    sep = t.index("/")
+                    pairs_ = list(zip(t[2:sep], t[sep + 1:]))
+                else:
+                    pairs_ = [(t[i], t[i + 1]) for i in range(2, len(t) - 1, 2)]
+                d = {}
+                for kk, vv in pairs_:
+                    if kk.startswith("K"):
+                        if pv(vv) == "nil":
+                            d.pop(kk, None)
+                        else:
+                            d[kk] = pv(vv)
+                self.T[int(x[1:])] = Obj(d, None)
+                exp = "ok"
+            elif name == "update":
+                exp = "ok"
+                if storable:
+                    v = chain_get(o, key)
+                    if v == "nil":
+                        o.d.pop(key, None)
+                    else:
+                        o.d[key] = v
+            elif name == "getproto":
+                regs_ = self.T if kind == "T" else self.S
+                exp = "nil" if o.proto is None else str(next((j for j in range(len(regs_)) if regs_[j] is o.proto), -2))
             elif name == "tostruct":
                 self.S[int(t[2][1:])] = Obj(o.d, None)
                 exp = "ok"
@@ -625,11 +685,12 @@ class Oracle:
                 self.T[int(x[1:])] = Obj()
                 exp = "ok"
             elif name == "flatten":
-                d, cur = {}, o
-                while cur is not None:
+                d, cur, lim = {}, o, 200
+                while cur is not None and lim:
                     for k, v in cur.d.items():
                         d.setdefault(k, v)
                     cur = cur.proto
+                    lim -= 1
                 self.T[int(t[2][1:])] = Obj(d, None)
                 exp = "ok"
             elif name == "mkstruct":
@@ -658,6 +719,17 @@ class Oracle:
                     f = regs.get("S%d" % i)
                     if f and int(f[1]) != len(self.S[i].d):
                         bad = "S%d: length %s but the reference map has %d entries" % (i, f[1], len(self.S[i].d))
+            # prototype link of every register (only setproto / clone / with-proto may create one)
+            if not bad:
+                for kind_, regs_, n_, col in (("T", self.T, NT, 4), ("S", self.S, NS, 3)):
+                    for i in range(n_):
+                        f = regs.get("%s%d" % (kind_, i))
+                        if not f or len(f) <= col:
+                            continue
+                        po = regs_[i].proto
+                        want = -1 if po is None else next((j for j in range(n_) if regs_[j] is po), -2)
+                        if int(f[col]) != want:
+                            bad = "%s%d: prototype link is %s, the reference says %d (-1 none, -2 a table no longer in a register)" % (kind_, i, f[col], want)
             return bad
         # ------------------------------------------------------------------ sequences
         if kind == "A":
@@ -741,7 +813,7 @@ class Oracle:
                 exp = "ok"
             elif name == "aensure":
                 c, g = as_i32(t[2]), as_i32(t[3])
-                exp = "err" if c is None or g is None or c < 1 else "ok"
+                exp = "err" if c is None or g is None or c < 1 or g < 1 else "ok"    # ill-typed / out-of-range arguments raise
             elif name in ("atrim",):
                 exp = "ok"
             elif name == "aclear":
@@ -1174,8 +1246,20 @@ def run(ctx, only_ops=None):
     # (E) minimise and report
     reported = set()
     diffs = []
-    for i, kind, k, info in sorted(findings, key=lambda f: (f[1] != "crash", f[1] != "oracle", len(hists[f[0]][1])))[:40]:
-        ops = hists[i][1][:k + 1]
+    # one bucket per (kind, exit status / failing op name): a frequent failure must not crowd out a rare one
+    buckets = {}
+    for f in sorted(findings, key=lambda f: (f[1] != "crash", f[1] != "oracle", len(hists[f[0]][1]))):
+        i, kind, k, info = f
+        if kind == "crash":
+            key = ("crash", (info or {}).get("rc"))
+        else:
+            key = (kind, hists[i][1][k].split()[0] if 0 <= k < len(hists[i][1]) else "?")
+        buckets.setdefault(key, [])
+        if len(buckets[key]) < 3:
+            buckets[key].append(f)
+    todo = [f for key in sorted(buckets, key=lambda kk: (kk[0] != "crash", kk[0] != "oracle", str(kk[1]))) for f in buckets[key]]
+    for i, kind, k, info in todo[:45]:
+        ops = hists[i][1][:k + 1] if kind != "crash" else hists[i][1]
 
         def sig_of(c):
             if c["kind"] is None:
@@ -1184,6 +1268,10 @@ def run(ctx, only_ops=None):
             if c["kind"] == "crash":
                 err = c.get("stderr", "")
                 what = "ubsan" if "runtime error" in err else ("asan" if "AddressSanitizer" in err else "crash")
+                if c.get("rc") == 97:
+                    what = "hang"          # the harness' per-op alarm fired: the call did not return within 5 s
+                elif c.get("rc") == 1 and "out of memory" in err:
+                    what = "exit-oom"      # JANET_OUT_OF_MEMORY: the whole process exited
                 return "crash:%s:%s" % (opname, what)
             if c["kind"] == "oracle":
                 return "oracle:%s" % opname
@@ -1199,7 +1287,9 @@ def run(ctx, only_ops=None):
         reported.add(s0)
         rep = {"kind": c["kind"], "ops": small, "detail": c, "label": hists[i][0], "original_length": len(ops)}
         if c["kind"] in ("crash", "oracle"):
-            what = ("implementation crashed / sanitizer report on `%s`" % c.get("op")) if c["kind"] == "crash" else \
+            what = (("implementation did not return within 5 s (hang) on `%s`" if s0.endswith(":hang") else
+                     "implementation exited the process (janet out of memory) on `%s`" if s0.endswith(":exit-oom") else
+                     "implementation crashed / sanitizer report on `%s`") % c.get("op")) if c["kind"] == "crash" else \
                    ("reference map/sequence replay disagrees with the implementation at `%s`: %s" % (c.get("op"), c.get("complaint")))
             ctx.violation(s0, rep, found=True, what=what)
         else:
@@ -1227,8 +1317,6 @@ def run(ctx, only_ops=None):
     return ctx.finish("proof", cov, assumptions=[
         "keys abstracted to (id, hash); janet_equals / janet_hash / janet_compare themselves are C03's subject (harness supplies real hashes and compare ranks)",
         "int32 overflow of 2*count+2 in janet_table_put not modelled (needs > 2^29 entries)",
-        "array/ensure with growth < 1 ends in JANET_OUT_OF_MEMORY (process exit), excluded from generated histories",
-        "table/proto-flatten on a cyclic prototype chain does not terminate; excluded from generated histories",
     ])
 
 
